@@ -47,6 +47,9 @@ and PointCloud / Trimesh).  Every placement is q[a] = (p[a] + off[a]) * 2^sce[a]
               angle_digits / normal, apply_obb(**kwargs), minimum_cylinder sample_count / angle_tol).
   larger sets family big_*: 12..64 points / mesh vertices of {0..7}^3 (random, full blocks, cospherical
               shells, two layers, clusters, non-convex voxel surfaces): kinds hullb, aabb, obb, ballc, cyl.
+  flat        family flat_*: three points / a mesh of one triangle (qhull fails even with QJ: the documented
+              coplanar branch of bounds.oriented_bounds) and 4..8 points / a sheet of triangles of one lattice
+              plane: axis-aligned and oriented box only (kinds aabbf, obbf), placed like the base families.
   objects     family object_*: Scene (two or three placed parts under lattice symmetries), Box and
               Extrusion primitives (Extrusion overrides bounding_box_oriented): hull, aabb, obb, sphere,
               cyl, bounding_primitive of the object itself.
@@ -697,8 +700,61 @@ def observe_aniso(trimesh, it):
     return out
 
 
+def observe_flat(trimesh, it):
+    """flat geometry (round 2): three or more points of one plane - a single triangle, a flat sheet, as points, as a
+    PointCloud and as a mesh.  Three points make qhull fail even with QJ and reach the documented coplanar branch of
+    bounds.oriented_bounds; four or more are joggled into a thin hull.  Only the axis-aligned and the oriented box
+    are judged (kinds aabbf, obbf: the clauses of aabb / obb)"""
+    pl = Place(it["place"], it["off"], it["sce"])
+    Q = pl.fwd(it["pts"])
+    base = {"exc": "", "dim": 3, "pts": [list(p) for p in it["pts"]], "off": [int(x) for x in it["off"]], "sce": pl.sce,
+            "grid": 3, "sane": False, "item": it["k"]}
+    out = []
+
+    def new(kind):
+        r = dict(base, kind=kind, obs=[])
+        out.append(r)
+        return r
+
+    if it["faces"] is None:
+        geo = lambda: trimesh.PointCloud(Q.copy())
+        tag = "pc"
+    else:
+        F = np.array(it["faces"], dtype=np.int64)
+        geo = lambda: trimesh.Trimesh(vertices=Q.copy(), faces=F.copy(), process=False)
+        tag = "mesh"
+        g0 = geo()
+        if len(g0.vertices) != len(Q) or len(g0.faces) != len(F) or not g0.referenced_vertices.all():
+            raise MachineryError("Trimesh(process=False) did not keep the input arrays")
+    B = trimesh.bounds
+    r = new("aabbf")
+    guarded(r, tag + ".bounds", lambda: aabb_obs(tag, geo(), pl))
+    r = new("obbf")
+    guarded(r, "oriented_bounds", lambda: box_obs("ob", *B.oriented_bounds(Q.copy()), pl, 3))
+    guarded(r, "oriented_bounds(%s)" % tag, lambda: box_obs("obG", *B.oriented_bounds(geo()), pl, 3))
+
+    def prim():
+        p = geo().bounding_box_oriented.primitive
+        return box_obs(tag, np.linalg.inv(np.asarray(p.transform, dtype=np.float64)), p.extents, pl, 3)
+
+    def applied():
+        g = geo()
+        ext = np.array(B.oriented_bounds(geo())[1], dtype=np.float64)
+        M = g.apply_obb()
+        return box_obs("apply", M, ext, pl, 3, newv=np.asarray(g.vertices))
+
+    guarded(r, tag + ".bounding_box_oriented", prim)
+    guarded(r, tag + ".apply_obb", applied)
+    if it["k"] % 2:
+        guarded(r, "oriented_bounds(list)", lambda: box_obs("obL", *B.oriented_bounds([[float(x) for x in q] for q in Q]), pl, 3))
+        guarded(r, "oriented_bounds(unordered)", lambda: box_obs("obU", *B.oriented_bounds(Q.copy(), ordered=False), pl, 3))
+    return out
+
+
 def observe(trimesh, it):
     """all records (one per kind) of one placed input"""
+    if it.get("flat"):
+        return observe_flat(trimesh, it)
     if it.get("wide"):
         return observe_wide(trimesh, it)
     if it.get("script"):
@@ -1224,6 +1280,39 @@ def big_families(rs, counts):
             n += 1
 
 
+def flat_families(rs, counts):
+    """(family, points, faces): lattice points of one plane of {0..3}^3 that span it (round 2)"""
+    n = 0
+    while n < counts["flat_triangle"]:
+        T = [GRID3[j] for j in rs.choice(64, 3, replace=False)]
+        if spans(T, 2):
+            # the same three points as a cloud and as a mesh of one triangle (either winding)
+            yield "flat_triangle", T, (None if n % 2 == 0 else [[0, 1, 2]] if n % 4 == 1 else [[0, 2, 1]])
+            n += 1
+    planes = [lambda p: p[0] == 1, lambda p: p[1] == 2, lambda p: p[2] == 0, lambda p: p[0] == p[1], lambda p: p[1] == p[2],
+              lambda p: p[0] + p[2] == 3, lambda p: sum(p) == 4, lambda p: sum(p) == 5, lambda p: p[0] - p[1] + p[2] == 2,
+              lambda p: p[0] + 2 * p[1] == 3, lambda p: 2 * p[0] - p[2] == 1, lambda p: p[0] + p[1] - p[2] == 1]
+    n = tries = 0
+    while n < counts["flat_sheet"]:
+        tries += 1
+        if tries > 10000:
+            raise MachineryError("family flat_sheet cannot be generated")
+        pool = [p for p in GRID3 if planes[(n + tries) % len(planes)](p)]
+        if len(pool) < 4:
+            continue
+        P = [pool[j] for j in rs.choice(len(pool), rs.randint(4, min(9, len(pool) + 1)), replace=False)]
+        if not spans(P, 2):
+            continue
+        faces = None
+        if n % 3 == 2:      # a sheet of triangles through every vertex (fan over the points in their drawn order)
+            faces = [[0, j, j + 1] for j in range(1, len(P) - 1)]
+            A = np.array(P)
+            if any(np.linalg.matrix_rank((A[f][1:] - A[f][0])) < 2 for f in faces):
+                faces = None
+        yield "flat_sheet", P, faces
+        n += 1
+
+
 def proper_symmetry(rs):
     """a rotation of the cube {0..3}^3 (axis permutation and reflections with determinant +1)"""
     while True:
@@ -1302,8 +1391,8 @@ def work_items(tier):
     def add(fam, dim, pts, faces, nplace, lean=False):
         nonlocal base
         for name, off, sce in placements(rs, dim, nplace):
-            # every fourth full item also goes through the other options / containers (audit)
-            put(fam, dim, pts, faces, name, off, sce, lean=lean, variants=(not lean and len(items) % 4 == 1))
+            # every fifth full item also goes through the other options / containers (audit)
+            put(fam, dim, pts, faces, name, off, sce, lean=lean, variants=(not lean and len(items) % 5 == 1))
         base += 1
 
     for fam, P in point_families(rs, counts):
@@ -1376,6 +1465,11 @@ def work_items(tier):
         for name, off, sce in placements(rs, 3, 3 if big else 1):
             put(fam, 3, P, F, name, off, sce, grid=7, cyl=(len(items) % 3 == 0), sane=False)
         base += 1
+    # ---- flat geometry: axis-aligned and oriented box only
+    for fam, P, F in flat_families(rs, {"flat_triangle": 60 * ma, "flat_sheet": 36 * ma}):
+        for name, off, sce in placements(rs, 3, 4 if big else 2):
+            put(fam, 3, P, F, name, off, sce, flat=True, cyl=False, sane=False)
+        base += 1
     # ---- other geometry classes
     for fam, spec, pts in object_items(rs, {"scene": 40 * ma, "box": 10 * ma, "extrusion": 20 * ma}):
         for name, off, sce in placements(rs, 3, 3 if big else 1):
@@ -1388,7 +1482,7 @@ def work_items(tier):
 def family_group(it):
     """coarse family of an item for the coverage guards"""
     f = it["family"]
-    for g in ("mag_", "shape_", "big_", "object_", "history_", "wide_"):
+    for g in ("mag_", "shape_", "big_", "object_", "history_", "wide_", "flat_"):
         if f.startswith(g):
             return g[:-1]
     return "base"
@@ -1402,7 +1496,7 @@ def detail_of(rec, it):
                  off_then=rec["off"], sce_then=rec["sce"])
     if it.get("wide"):
         d["wide"] = True
-    for k in ("grid", "object", "variants"):
+    for k in ("grid", "object", "variants", "flat"):
         if it.get(k):
             d[k] = it[k]
     return d
@@ -1418,13 +1512,13 @@ def main(argv):
         items = []
         for v in rp["violations"]:
             d = v["detail"]
-            plain = not (d.get("grid") or d.get("object")) and len(set(d["sce"])) == 1
+            plain = not (d.get("grid") or d.get("object") or d.get("flat")) and len(set(d["sce"])) == 1
             twins = [("origin", [0] * d["dim"], [0] * d["dim"])] if plain else []
             for name, off, sce in twins + [(d["place"], d["off"], d["sce"])]:
                 it = {"k": len(items), "base": len(items) // 2, "family": d["family"], "dim": d["dim"],
                       "pts": [tuple(p) for p in d["pts"]], "faces": d["faces"], "place": name, "off": off,
                       "sce": sce, "cyl": d["dim"] == 3, "sane": plain}
-                for k in ("grid", "object", "variants"):
+                for k in ("grid", "object", "variants", "flat"):
                     if d.get(k):
                         it[k] = d[k]
                 if d.get("script"):
@@ -1467,11 +1561,15 @@ def main(argv):
         for c in cases:
             it = byitem[c["item"]]
             bump(kinds, c["kind"])
-            if c["kind"] in ("obb", "obbn"):
+            if c["kind"] in ("obb", "obbn", "obbf"):
                 bump(places, it["place"])
             if c["kind"] in ("hull", "hullw", "hullb"):
                 bump(fam, it["family"])
             bump(groups_seen, family_group(it) + ":" + c["kind"])
+            if c["kind"] == "obbf":
+                bump(stats, "flat_sheets" if len(it["pts"]) > 3 else "flat_single_triangle_meshes" if it["faces"]
+                     else "flat_three_point_clouds")
+                bump(stats, "flat_records_away_from_the_origin", int(any(it["off"])))
             if it.get("variants"):
                 bump(stats, "records_with_option_and_container_variants")
             if family_group(it) == "mag":
@@ -1532,7 +1630,8 @@ def main(argv):
         need = {"mag:hull": 150, "mag:aabb": 150, "mag:obb": 150, "mag:sphere": 150, "mag:cyl": 30,
                 "shape:hull": 100, "shape:aabb": 100, "shape:obbn": 100,
                 "big:hullb": 60, "big:aabb": 60, "big:obb": 60, "big:ballc": 60, "big:cyl": 10,
-                "object:hull": 50, "object:aabb": 50, "object:obb": 50, "object:sphere": 50, "object:cyl": 10}
+                "object:hull": 50, "object:aabb": 50, "object:obb": 50, "object:sphere": 50, "object:cyl": 10,
+                "flat:obbf": 200, "flat:aabbf": 200}
         short = {k: groups_seen.get(k, 0) for k, n in need.items() if groups_seen.get(k, 0) < n}
         tags = {"hull:chL", "hull:chF", "hull:chV", "hull:cqN", "hull:cqS", "hull:cqO", "hull:cqJ", "hull:craw",
                 "hull:pcL", "obb:obL", "obb:obU", "obb:obD0", "obb:obD3", "obb:obNa", "obb:obNd", "obb:obG", "obb:apK",
@@ -1542,6 +1641,10 @@ def main(argv):
         for t in ("hull:chI", "hull:ch32", "obb:obI", "obb:ob32", "sphere:mnI", "sphere:mn32"):
             if apis.get(t, 0) < 30:
                 thin[t] = apis.get(t, 0)
+        for t, n in (("flat_single_triangle_meshes", 40), ("flat_three_point_clouds", 40), ("flat_sheets", 60),
+                     ("flat_records_away_from_the_origin", 100)):
+            if stats.get(t, 0) < n:
+                thin[t] = stats.get(t, 0)
         if short or thin or stats.get("magnitude_records_tiny_scale", 0) < 150 \
                 or stats.get("magnitude_records_huge_scale", 0) < 150 or stats.get("magnitude_records_far_offset", 0) < 100:
             raise MachineryError(f"audit families nearly empty: {short} {thin} {stats}")
@@ -1577,6 +1680,8 @@ def main(argv):
         "sets with lattice steps below 2^-26 are not generated: closer points are one vertex for trimesh (tol.merge = "
         "1e-8); rejected records whose two thinnest axes scale a unit square to <= tol.zero = 1e-13 carry the deviation "
         "id MicroscopicFacesBelowTolZero (decided from the placement alone)",
+        "flat geometry (3 points / one triangle, 4..8 points / a sheet of one lattice plane): axis-aligned and oriented "
+        "box only, by the clauses of the spanning sets (bounds.oriented_bounds documents a branch for coplanar input)",
         "a hull vertex counts as an input point when it equals one within 1e-9 after mapping back",
         "sphere: exact comparison when the reported centre is within 1e-7 of fractions of denominator <= 2000, else the "
         "weaker fixed-point form; minimality only for inputs in general position (no five cospherical / four cocircular)",
@@ -1586,8 +1691,9 @@ def main(argv):
         "object after the reads (the moves themselves are property C19); wide sets: coordinates cl * 10^5 + lo, hull "
         "clauses only, signs decided as polynomials in 10^5",
         "not constrained: inputs on hull faces/edges being vertices or not, zero-area hull faces, meshes with "
-        "unreferenced vertices (Trimesh.bounds documents that it ignores them), degenerate inputs (coplanar 3D sets: "
-        "hull and bounding sphere / cylinder raise QhullError, the coplanar fallback of oriented_bounds is not judged), "
+        "unreferenced vertices (Trimesh.bounds documents that it ignores them), hull / bounding sphere / bounding "
+        "cylinder of flat geometry (they raise QhullError; the hull clause needs a spanning set, and the quantifier "
+        "names flat-ish sets), collinear and single-point input, "
         "nsphere.fit_nsphere (a least-squares fit, not a bound), convex_hull(repair=False) winding and volume",
     ])
 
